@@ -9,7 +9,8 @@
 
    case = EbpfRun's case record plus
           n       number of instances
-          var     [kind |-> "map" | "stack", fd, off, size]    where v lives
+          var     [kind |-> "map" | "stack" | "hash", fd, off, size (, key)]    where v lives ("hash": a member of
+                  the entry `key` of a hash map - the looked-up value of a Dict, shared like a map variable)
           fmt     format letter of v (i I q Q x)
           amount  the amount one execution adds, as a `size`-byte two's-complement word, in the
                   unit the statement is written in (for x: the integer k of `v += k`)
@@ -43,11 +44,15 @@ XNext == \E i \in Inst : Step(i)
 XSpec == XInit /\ [][XNext]_xvars
 
 AllDone == \A i \in Inst : ~Running(cpu[i])
+Shared == K.var.kind \in {"map", "hash"}
 VarBytes(m, i) ==
     IF K.var.kind = "map" THEN LoadBytes(m, Rg("arr", K.var.fd, <<>>), K.var.off, K.var.size)
+    ELSE IF K.var.kind = "hash" THEN LoadBytes(m, Rg("hash", K.var.fd, K.var.key), K.var.off, K.var.size)
     ELSE LoadBytes(m, StackOf(i), K.var.off, K.var.size)
 Init0 == IF K.var.kind = "map"
          THEN LoadBytes(Mem(K), Rg("arr", K.var.fd, <<>>), K.var.off, K.var.size)
+         ELSE IF K.var.kind = "hash"
+         THEN LoadBytes(Mem(K), Rg("hash", K.var.fd, K.var.key), K.var.off, K.var.size)
          ELSE K.stack0                       \* value the wrapper's prologue stores into the local
 
 (* no instance ever faults *)
@@ -56,7 +61,7 @@ NoFault == \A i \in Inst : ~Faulted(cpu[i])
    shared map variable: init + n * amount; a local variable: each instance's own copy + amount *)
 NoLostUpdate ==
     AllDone =>
-      IF K.var.kind = "map"
+      IF Shared
       THEN VarBytes(mem, 1) = Times(Raw(K), K.n, Init0)
       ELSE \A i \in Inst : VarBytes(mem, i) = WAdd(Init0, Raw(K))
 (* every instance leaves through its exit instruction *)
